@@ -53,6 +53,7 @@ Init ==
     /\ upd = 0
     /\ ev = [act |-> "reset", by |-> "env", ok |-> TRUE]
     /\ sched = <<>>
+    /\ \A i \in 1..20 : TLCSet(100 + i, 0)
     /\ cfgv = [preapprove |-> TRUE, flavour |-> Flavour, thr |-> Thr, period |-> Period, executor |-> Executor, dep |-> Dep,
                voters |-> SetToSeq({[a |-> x, w |-> m[x]] : x \in {y \in Addr : m[y] >= 0}})]
 
@@ -226,8 +227,35 @@ KindsGen == {"none", "sink", "sink2", "bank", "bankbig", "flaky", "reexec", "rec
 
 EmitSchedule ==
   (GenMode /\ Len(sched) = GenDepth) => PrintT(<<"SCHED", ToJson([cfg |-> cfgv, steps |-> sched])>>)
-\* sampled breadth-first generation: the BFS path of every SampleK-th distinct state of the model
+\* corner states whose BFS path is always emitted (once each), whatever the sampling rate
+HasVote(p, kind) == \E a \in Addr : p.ballots[a].vote = kind
+Goals == <<
+  \* a zero-weight proposer whose proposal got only abstentions and has expired
+  \E id \in Ids : props[id].ballots[props[id].proposer].w = 0 /\ HasVote(props[id], "abstain") /\ ~HasVote(props[id], "no")
+                   /\ ~HasVote(props[id], "veto") /\ Expired(props[id].expires, now),
+  \* a proposal that is not passed just before its expiry and passed at it (quorum rule)
+  \E id \in Ids : stored[id] = "open" /\ props[id].status = "passed" /\ Expired(props[id].expires, now),
+  \* voted down before expiry
+  \E id \in Ids : stored[id] = "rejected" /\ ~Expired(props[id].expires, now) /\ ~closedH[id],
+  \* created already expired
+  \E id \in Ids : Len(rejEarly) >= id /\ rejEarly[id] /\ props[id].nvotes = 1,
+  \* executed while still open for votes
+  \E id \in Ids : execd[id] = 1 /\ ~Expired(props[id].expires, now),
+  \* a veto and a no on the same proposal
+  \E id \in Ids : HasVote(props[id], "veto") /\ HasVote(props[id], "no"),
+  \* closed with a refund
+  \E id \in Ids : closedH[id] /\ held[id] = 0 /\ props[id].dep.kind # "none",
+  \* the group changed in the block of a proposal, before and after it
+  \E id \in Ids : sameBlk[id],
+  \E id \in Ids : dirty /\ ~sameBlk[id] /\ props[id].status = "open",
+  \* two proposals alive at once
+  Len(props) >= 2 /\ \A id \in Ids : props[id].status = "open"
+>>
+NewGoal == \E i \in 1..Len(Goals) : Goals[i] /\ TLCGet(100 + i) = 0 /\ TLCSet(100 + i, 1)
+\* sampled breadth-first generation: the BFS path of every SampleK-th distinct state of the model,
+\* plus the first state found for every goal
 EmitSampled ==
-  (GenMode /\ ~GenFail /\ Len(sched) > 0 /\ TLCGet("distinct") % SampleK = 0) =>
-     PrintT(<<"SCHED", ToJson([cfg |-> cfgv, steps |-> sched])>>)
+  (GenMode /\ ~GenFail /\ Len(sched) > 0) =>
+     (IF NewGoal \/ TLCGet("distinct") % SampleK = 0
+      THEN PrintT(<<"SCHED", ToJson([cfg |-> cfgv, steps |-> sched])>>) ELSE TRUE)
 =============================================================================
